@@ -64,7 +64,11 @@ func Execute(spec RunSpec) (res *Result, reusable bool) {
 		}()
 		info.Run(x)
 	}()
-	ResetGlobals()
+	if s.Abnormal == "" {
+		// after an abnormal end the task goroutines stay parked and were never joined: touching the
+		// globals they read would look like a race to the detector (the process is replaced anyway)
+		ResetGlobals()
+	}
 	res.Steps = s.Step
 	if res.TraceHash == 0 {
 		res.TraceHash = s.TraceHash()
